@@ -40,6 +40,11 @@ type loopInfo struct {
 	havocAll     bool
 	placeholders map[string][2]string // name -> {placeholder symbol, pre term}
 	sorts        map[string]string
+	writes       map[string][]string // array name -> object terms written ("" = whole array)
+	scriptPos    int
+	preAlloc     string
+	invCache     map[string]bool
+	phNames      map[string]string // placeholder symbol -> array name
 }
 
 // Exec verifies one function (the root) and everything inlined into it.
@@ -319,20 +324,25 @@ func (x *Exec) leafWrite(st *State, c cell, leaf Leaf, v string) {
 		sort := "(Array Int (Array Int " + leaf.Sort + "))"
 		a := st.Get(name, sort)
 		st.Set(name, sort, Store(a, c.obj, Store(Select(a, c.obj), c.idx, v)))
-		x.markWritten(name)
+		x.markWrittenAt(name, c.obj)
 		return
 	}
 	name := x.hName(c.root, full)
 	sort := "(Array Int " + leaf.Sort + ")"
 	a := st.Get(name, sort)
 	st.Set(name, sort, Store(a, c.obj, v))
-	x.markWritten(name)
+	x.markWrittenAt(name, c.obj)
 }
 
-func (x *Exec) markWritten(name string) {
+func (x *Exec) markWritten(name string) { x.markWrittenAt(name, "") }
+
+// markWrittenAt records that row obj of heap array name is written inside the active loops
+// (obj == "" : anywhere in the array).
+func (x *Exec) markWrittenAt(name, obj string) {
 	for _, f := range x.frames {
 		for _, li := range f.curLoops {
 			li.written[name] = true
+			li.writes[name] = append(li.writes[name], obj)
 		}
 	}
 }
@@ -517,12 +527,103 @@ func (x *Exec) finishLoops() {
 	for _, li := range x.loops {
 		for _, name := range sortedKeys(li.placeholders) {
 			ph := li.placeholders[name]
-			if li.havocAll || li.written[name] {
+			if li.havocAll {
 				continue
 			}
-			x.epilogue = append(x.epilogue, fmt.Sprintf("(assert (= %s %s))", ph[0], ph[1]))
+			if !li.written[name] {
+				x.epilogue = append(x.epilogue, fmt.Sprintf("(assert (= %s %s))", ph[0], ph[1]))
+				continue
+			}
+			// loop frame: rows of objects the loop body does not write keep their pre-loop value
+			sort := x.arraySort[name]
+			if !strings.HasPrefix(sort, "(Array Int ") {
+				continue
+			}
+			var known []string
+			freshWrites, unknown := false, false
+			seen := map[string]bool{}
+			for _, t := range li.writes[name] {
+				switch x.classifyIndex(t, li) {
+				case "invariant":
+					if !seen[t] {
+						seen[t] = true
+						known = append(known, t)
+					}
+				case "fresh":
+					freshWrites = true
+				default:
+					unknown = true
+				}
+			}
+			if unknown {
+				continue
+			}
+			conds := []string{}
+			if freshWrites {
+				conds = append(conds, "(< o "+li.preAlloc+")")
+			}
+			for _, t := range known {
+				conds = append(conds, "(not (= o "+t+"))")
+			}
+			x.epilogue = append(x.epilogue, fmt.Sprintf("(assert (forall ((o Int)) (! (=> %s (= (select %s o) (select %s o))) :pattern ((select %s o)))))", And(conds...), ph[0], ph[1], ph[0]))
 		}
 	}
+}
+
+// classifyIndex decides whether an object term written inside a loop is loop-invariant
+// (its value is the same in every iteration), freshly allocated inside the loop, or unknown.
+func (x *Exec) classifyIndex(t string, li *loopInfo) string {
+	if t == "" || !isAtom(t) {
+		return "unknown"
+	}
+	if x.loopInvariant(t, li, map[string]bool{}) {
+		return "invariant"
+	}
+	for _, p := range []string{"new!", "newmap!", "newarr!", "boxobj!", "newchan!"} {
+		if strings.HasPrefix(t, p) {
+			return "fresh"
+		}
+	}
+	return "unknown"
+}
+
+// loopInvariant: the symbol denotes the same value on every iteration of li. True for symbols
+// introduced before the loop, for the placeholders of heap arrays the loop does not write and
+// for abbreviations built only from such symbols.
+func (x *Exec) loopInvariant(s string, li *loopInfo, busy map[string]bool) bool {
+	if isLiteral(s) {
+		return true
+	}
+	if v, ok := li.invCache[s]; ok {
+		return v
+	}
+	if busy[s] {
+		return false
+	}
+	busy[s] = true
+	res := false
+	idx, declared := x.sc.defIndex[s]
+	switch {
+	case !declared:
+		// theory symbol (select, store, ite, +, ...) or prelude function
+		res = true
+	case idx < li.scriptPos:
+		res = true
+	default:
+		if name, ok := li.phNames[s]; ok {
+			res = !li.written[name] && !li.havocAll
+		} else if def, ok := x.sc.defTerm[s]; ok {
+			res = true
+			for _, u := range termSymbols(def) {
+				if !x.loopInvariant(u, li, busy) {
+					res = false
+					break
+				}
+			}
+		}
+	}
+	li.invCache[s] = res
+	return res
 }
 
 func (x *Exec) newFrame(fn *ssa.Function, params []Val, freeVars []Val, depth int, path string) *frame {
@@ -776,7 +877,7 @@ func (x *Exec) mergeVals(cond string, a, b Val) Val {
 // enterLoop checks the invariants on entry, havocs loop-carried state and assumes the invariants.
 func (f *frame) enterLoop(b *ssa.BasicBlock, h *loopHead, pre *State, reach string) (*State, error) {
 	x := f.x
-	li := &loopInfo{id: len(x.loops) + 1, head: b, written: map[string]bool{}, placeholders: map[string][2]string{}}
+	li := &loopInfo{id: len(x.loops) + 1, head: b, written: map[string]bool{}, placeholders: map[string][2]string{}, writes: map[string][]string{}, invCache: map[string]bool{}, phNames: map[string]string{}}
 	x.loops = append(x.loops, li)
 	h.li = li
 	if f.contract != nil && f.depth == 0 {
@@ -797,6 +898,8 @@ func (f *frame) enterLoop(b *ssa.BasicBlock, h *loopHead, pre *State, reach stri
 	// havoc: phis become fresh, heap becomes lazily-havocked
 	pre.frozen = true
 	preAlloc := pre.Get(allocName, "Int")
+	li.preAlloc = preAlloc
+	li.scriptPos = x.sc.Len()
 	st := &State{x: x, heap: map[string]string{}, m: nil, epoch: -li.id}
 	st.loop = &loopBase{pre: pre, li: li}
 	for _, in := range b.Instrs {
